@@ -23,6 +23,47 @@ def norm(s):
     return s.replace('[', '[ ').replace(']', ' ]').replace(';', ' ; ')
 
 
+
+def warm_lines(r, count, add_sequence, res, with_long=True):
+    """warm-up injection: the whole store state (1m array and one array per bigger timeframe) after
+    inject_warmup_candles_to_store, for clean series of every length (also ending inside a window) and for series with
+    repeated / older / unknown minutes; returns (driver lines `st warm …`, what the real store holds)"""
+    import numpy as np
+    from jesse.store import store
+    from jesse.services.candle import inject_warmup_candles_to_store
+    from jesse.config import config as jconfig
+    from jesse.libs import DynamicNumpyArray
+    import jesse.helpers as jh
+    lines, expect = [], []
+    saved_tfs = jconfig['app']['considering_timeframes']
+    names = {3: '3m', 5: '5m', 15: '15m'}
+    for t in range(count):
+        tfs = r.choice([(3,), (5,), (3, 5), (3, 15), (15,)]) if with_long else ()
+        clean = r.random() < 0.7
+        seq = [c for c in add_sequence(r.randint(1, 40), clean=clean) if c[0] != 0]
+        if not seq:
+            continue
+        store.candles.init_storage(50)
+        for m in tfs:
+            store.candles.storage[jh.key('Sandbox', 'BTC-USDT', names[m])] = DynamicNumpyArray((10, 6))
+        jconfig['app']['considering_timeframes'] = ('1m',) + tuple(names[m] for m in tfs)
+        try:
+            inject_warmup_candles_to_store(np.array(seq, dtype=float), 'Sandbox', 'BTC-USDT')
+            parts = ['ok ' + show([list(map(float, x)) for x in store.candles.get_storage('Sandbox', 'BTC-USDT', '1m')[:]])]
+            for m in tfs:
+                got = store.candles.get_storage('Sandbox', 'BTC-USDT', names[m])
+                parts.append(f'{m} ' + show([list(map(float, x)) for x in got[:]] if len(got) else []))
+            py = ' | '.join(parts)
+        except Exception as e:  # noqa
+            py = 'err ' + purecorr.ERRMAP.get(type(e).__name__, 'Other')
+        finally:
+            jconfig['app']['considering_timeframes'] = saved_tfs
+        lines.append(f'st warm {len(tfs)} ' + ' '.join(str(m) for m in tfs) + f' {len(seq)} ' + ' '.join(cw(c) for c in seq))
+        expect.append(py)
+        res.count('warmup-injection' + (':clean' if clean else ':with-repeats'))
+    return lines, expect
+
+
 class C20(core.Check):
     pid = 'C20'
     unproved = [
@@ -157,6 +198,10 @@ class C20(core.Check):
             lines.append(f'st addmultid 50 {len(base)} ' + ' '.join(cw(c) for c in base) + f' {len(cs)} ' + ' '.join(cw(c) for c in cs))
             expect.append(py)
             res.count('add_multiple_1m-on-array-model')
+        # (C20 is about the 1m series only: the bigger arrays of the injection are compared by C07's check)
+        wl, we = warm_lines(r, self.budget(80, 1500, boost), self.add_sequence, res, with_long=False)
+        lines += wl
+        expect += we
         # spacing check
         for d in (M, 2 * M, 0, -M, 59_999, 5 * M):
             cs = [[10 * M, 1, 1, 1, 1, 1], [10 * M + d, 1, 1, 1, 1, 1], [10 * M + d + M, 1, 1, 1, 1, 1]]
